@@ -117,7 +117,7 @@ func c14Open(v *verifFS, content []byte, mode int) (afero.File, *refFile, bool) 
 	return h, ref, err == nil
 }
 
-const c14Kinds = 7
+const c14Kinds = 8
 
 // c14Step performs one symbolic handle call on both and compares the results.
 func c14Step(h afero.File, ref *refFile, tag string) {
@@ -196,6 +196,30 @@ func c14Step(h afero.File, ref *refFile, tag string) {
 		err := h.Truncate(n)
 		ok := ref.doTruncate(n)
 		vm.Assert("C14.truncate_success_like_reference", (err == nil) == ok)
+	case 7: // ReadAt(k, off): a positioned read; the offset used by Read, Write and Seek stays where it is
+		k := vm.Concretize(vm.Int(tag+".k", 1, 3))
+		off := int64(vm.Int(tag+".off", 0, 5))
+		buf := make([]byte, k)
+		n, err := h.ReadAt(buf, off)
+		if !ref.read {
+			vm.Assert("C14.readat_refused_like_reference", err != nil)
+			vm.Assert("C14.refused_call_reports_count_zero", n == 0)
+			return
+		}
+		want := int64(len(ref.data)) - off
+		if want < 0 {
+			want = 0
+		}
+		if want > int64(k) {
+			want = int64(k)
+		}
+		vm.Assert("C14.readat_count", int64(n) == want)
+		vm.Assert("C14.readat_error", (err == nil && int64(n) == int64(k)) || (err == io.EOF && int64(n) < int64(k)) || (err == nil && int64(n) == want))
+		if int64(n) == want {
+			for i := int64(0); i < want; i++ {
+				vm.Assert("C14.readat_bytes", buf[i] == ref.data[off+i])
+			}
+		}
 	case 6: // Sync: flushes what was written; the handle, its content and its offset stay as they are
 		err := h.Sync()
 		vm.Assert("C14.sync_ok", err == nil)
@@ -217,7 +241,15 @@ func Harness_C14_handle_matches_byte_array() {
 	}
 	v := verifNewFS(config.PipeConfig{}, false, true)
 	v.rootOnly()
-	l := vm.Concretize(vm.Int("len", 0, 3))
+	maxLen := 3
+	if vm.Tier() != "thorough" {
+		// (quick tier: 0..2 bytes, and the file cache only over the 2-byte file; the thorough tier has every length)
+		maxLen = 2
+	}
+	l := vm.Concretize(vm.Int("len", 0, maxLen))
+	if vm.Tier() != "thorough" && fileCache {
+		vm.Assume(l == 2)
+	}
 	content := make([]byte, l)
 	for i := range content {
 		content[i] = vm.Byte("c", "pqr")
